@@ -101,6 +101,14 @@ func (e *Effects) step(fn *ssa.Function, s *fnState, sum *Summary, ins ssa.Instr
 						e.emit(fn, s, r, ef.Loc, ef.CT, ef.Pos, ef.Fn, via, nil)
 						s.taint(cs, subst0(ef.Val))
 					}
+				case ri.base[0] == 'W':
+					k := atoi(ri.base[1:])
+					if k >= 0 && k < len(x.Bindings) {
+						A, C := s.cellValue(x.Bindings[k])
+						r, cs := s.substFS(ri, A, C, ef.CT, e)
+						e.emit(fn, s, r, ef.Loc, ef.CT, ef.Pos, ef.Fn, via, nil)
+						s.taint(cs, subst0(ef.Val))
+					}
 				case ri.base[0] == 'P':
 					e.emit(fn, s, strset{"CBP" + ri.base[1:]: true}, ef.Loc, ef.CT, ef.Pos, ef.Fn, via, nil)
 				default:
